@@ -36,7 +36,7 @@ def main():
         mod.prepare(build)
     jobs = mod.make_jobs(a.tier, seed, build)
     if a.grammar:
-        jobs = [j for j in jobs if j.get("grammar") == a.grammar or j.get("kind") == a.grammar or j.get("pair") == a.grammar]  # dev filter: grammar or job kind
+        jobs = [j for j in jobs if j.get("grammar") == a.grammar or j.get("kind") == a.grammar or j.get("pair") == a.grammar or j.get("template") == a.grammar]  # dev filter: grammar or job kind
     if a.max_jobs:
         jobs = jobs[:a.max_jobs]
     sys.stderr.write("%s: %d jobs (build %.1fs)\n" % (a.prop, len(jobs), build["timings"]["total"]))
